@@ -9,6 +9,7 @@ lean/Driver/Term.lean judges every verdict, every returned function and every re
 with the verified procedures.
 """
 import collections, concurrent.futures as cf, hashlib, json, os, re
+from . import c18_complete
 
 LEVEL = "proof"
 PROPS = ["PPLV.Props.C18"]
@@ -96,6 +97,8 @@ def classify(info, event_line, what):
 def replay(ctx, path):
     """Re-run the REAL library on the recorded relation (rebuilt from its constraints() lines) and re-judge."""
     rp = json.load(open(path))
+    if rp.get("stage") == "c18_complete":     # stage 3 replay files (completeness cross-check)
+        return c18_complete.replay(ctx, path)
     case = rp.get("case", [])
     print("property=%s what=%s" % (rp.get("property"), rp.get("what")))
     ctx.ensure_ppl()
@@ -196,8 +199,10 @@ def run(ctx):
                                    "harness_args": cmd[1:],
                                    "replay_cmd": "bin/check C18 --replay <this file>  (re-runs the real library on the recorded relation)"},
                                   found_input=True, record={"site": site, "tags": tags})
+    # stage 3: completeness of the encodings (Farkas from the FM kernel) + the cross-check it justifies
+    broken += c18_complete.run(ctx, cases=cases, verd=verd, info_by_ln=info_by_ln, cmd=cmd)
     if not quick:
-        broken += ctx.leanchecker(PROPS)
+        broken += ctx.leanchecker(PROPS + c18_complete.PROPS)
     for b in broken:
         ctx.violation("proof obligation broken: " + b, {"obligation": b}, found_input=False)
 
